@@ -4,4 +4,4 @@ From Coq Require Import ZArith.
 Require Import XV.StripDefs.
 (* ocaml/conv.ml mentions the types z and nat: make sure both are part of the extracted module *)
 Definition conv_types_witness : Z * nat := (0%Z, O).
-Extraction "extracted/strip_model.ml" conv_types_witness model_report post_construction sheet_strip remove_stripped run_obs.
+Extraction "extracted/strip_model.ml" conv_types_witness model_report post_construction sheet_strip remove_stripped run_obs number_any walk_strip.
